@@ -74,6 +74,18 @@ func NewSessionVariables() *SessionVariables {
 	}
 }
 
+// Clone returns a copy that shares no Variable with s.
+func (s *SessionVariables) Clone() *SessionVariables {
+	c := NewSessionVariables()
+	for name, v := range s.variables {
+		c.variables[name] = &Variable{name: v.name, value: v.value, verify: v.verify}
+	}
+	for name, v := range s.unused {
+		c.unused[name] = &Variable{name: v.name, value: v.value, verify: v.verify}
+	}
+	return c
+}
+
 // Equals check if equal of SessionVariables
 func (s *SessionVariables) Equals(dst *SessionVariables) bool {
 	if len(s.variables) != len(dst.variables) {
